@@ -362,11 +362,40 @@ def main():
             broken.append({"obligation": "leanchecker", "kind": "audit", "log": out[-1500:]})
 
     # --- C. correspondence + D. oracle --------------------------------------------------------
+    limit = int(os.environ.get("VERIF_TIMEOUT", "0") or 0) or (6 * 3600 if args.tier == "thorough" else 1800)
+
+    class HarnessTimeout(BaseException):
+        pass
+
+    def on_alarm(signum, frame):
+        raise HarnessTimeout()
+    import signal
+    signal.signal(signal.SIGALRM, on_alarm)
+    signal.alarm(limit)
     try:
         mod.run(ctx)
+    except HarnessTimeout:
+        # where was it stuck?  inside the implementation = it does not return on some generated input (every check finishes in
+        # minutes on a tree where the property holds); inside the harness / driver = infrastructure
+        tb = traceback.extract_tb(sys.exc_info()[2])
+        frames = [f"{f.filename}:{f.lineno} {f.name}" for f in tb]
+        frames = frames[:-1]             # drop the signal handler itself
+        last = max([i for i, f in enumerate(frames) if "/dpapi_ng/" in f], default=-1)
+        inside = last >= 0 and len(frames) - 1 - last <= 6     # in the implementation, or in a stub it called directly
+        if inside:
+            path = write_replay(prop, {"property": prop, "kind": "no-failing-input-found", "broken_obligations": [
+                {"obligation": "correspondence run", "kind": f"the implementation did not return within {limit} s", "log": "\n".join(frames[-12:])}],
+                "disagreements": ctx.disagreements[:5]})
+            print(f"  implementation did not return within {limit} s; innermost frames:\n    " + "\n    ".join(frames[-6:]))
+            print(f"VIOLATION property={prop} replay={path} no-failing-input-found")
+            return 1
+        print(f"infrastructure: timeout after {limit} s\n  " + "\n  ".join(frames[-8:]))
+        return 2
     except Exception:
         print("infrastructure: harness raised\n" + traceback.format_exc())
         return 2
+    finally:
+        signal.alarm(0)
 
     # witnesses of broken obligations → direct search on the implementation
     if (broken or ctx.disagreements) and hasattr(mod, "search"):
